@@ -498,4 +498,30 @@ theorem C04_code_write_fs (I : String → Nat → Rat → Rat) (hI : ZeroFn I)
   rfl
 
 
+open Atsim.Gen.Logic Atsim.TokSem in
+/-- **code tie (the tabulation objects)**: `SetFL_FS_EAMTabulation.write` writes `setflTab true` -/
+theorem C04_code_tabulation_write_setfl (I : String → Nat → Rat → Rat) (hI : ZeroFn I) (els : List El) (pairs dip quad : List PairDecl)
+    (cut : Rat) (nr : Nat) (cutrho : Rat) (nrho : Nat) (out : List Tok) :
+    streamSem I (setfl_fs_tab_write ⟨(nr : Int), cut, (nrho : Int), cutrho, els.map toEam, pairs.map toPot, dip.map toPot, quad.map toPot⟩ out) =
+      streamSem I out ++ setflSem I ["", "", ""] ((nr : Rat) * tabStep cut nr) (setflTab true els pairs cut nr cutrho nrho) := by
+  unfold setfl_fs_tab_write
+  simp only [Atsim.C03.eamtab_dr_eq, Atsim.C03.eamtab_drho_eq]
+  rw [C04_code_write_fs I hI]
+  rfl
+
+open Atsim.Gen.Logic Atsim.TokSem in
+/-- … and `TABEAM_FinnisSinclair_EAMTabulation.write` writes `tabeamTab true` (empty title) -/
+theorem C04_code_tabulation_write_tabeam (I : String → Nat → Rat → Rat) (hI : ZeroFn I) (els : List El) (pairs dip quad : List PairDecl)
+    (hnd : (els.map (·.sp)).Nodup) (hne : ∀ e ∈ els, e.sp ≠ "") (hfull : ∀ a ∈ els, ∀ b ∈ els, (dictGet a.densTo b.sp).isSome)
+    (cut : Rat) (nr : Nat) (cutrho : Rat) (nrho : Nat) (out : List Tok) :
+    (tabeam_fs_tab_write ⟨(nr : Int), cut, (nrho : Int), cutrho, els.map toEam, pairs.map toPot, dip.map toPot, quad.map toPot⟩ out).map (streamSem I) =
+      .ok (streamSem I out ++ tabeamSem I "" (tabeamTab true els pairs cut nr cutrho nrho)) := by
+  have h := C04_code_tabeam_fs I hI els pairs hnd hne hfull nrho nr (tabStep cutrho nrho) (tabStep cut nr) "" out
+  unfold tabeam_fs_tab_write
+  simp only [Atsim.C03.eamtab_dr_eq, Atsim.C03.eamtab_drho_eq]
+  revert h
+  cases tabeam_write_fs (nrho : Int) (tabStep cutrho nrho) (nr : Int) (tabStep cut nr) (els.map toEam) (pairs.map toPot) out "" with
+  | error e => intro h; simp [Except.map] at h
+  | ok v => intro h; simpa [andThen, Except.map, tabeamTab] using h
+
 end Atsim.C04
